@@ -88,7 +88,8 @@ META = {
              engine="handlers",
              text="Which probe handler runs (identity, kind, code) after every violating call, and what each registration returns, is compared with a model (thread-local if set, "
                   "else latest global, else default). Complete for short histories on two threads, random for long histories with thread creation, plus a concurrent phase on "
-                  "thread-local state.",
+                  "thread-local state. In addition every failing call of the 40 engine exports must reach the handler of its own kind (memory handler for mem*_s / wmem*_s, string "
+                  "handler otherwise).",
              note="Probe handlers are installed through the public API only; trusts pthreads/TLS of the platform."),
  "C14": dict(technique="runtime monitoring: recorded call sequences checked against a reference tokenizer; continuation pointer poisoned into a guard page",
              engine="tok",
@@ -100,7 +101,9 @@ META = {
              engine="uni",
              text="The real wcsnorm_s is run on every assigned code point, Hangul, all composing pairs and random reordered mark sequences in NFD and NFC (minimal and ample dmax) and compared "
                   "with an independent implementation; results are re-normalised; iswfc's announcement is compared with what towfc_s/wcsfc_s emit for every 21-bit value and larger ones, with "
-                  "destinations sized from the announcement flush against unmapped memory.",
+                  "destinations sized from the announcement flush against unmapped memory; wcsfc_s output is compared with the decomposed full case folding of str.casefold(); strings of "
+                  "multi-character foldings (wcsfc_s) and of decomposable characters (wcsnorm_s NFD/NFC) are run with every dmax from 1 up: no access outside dest, success only "
+                  "with the text an ample destination gets.",
              note="Independent oracle limited to UCD 14 (Python in this image)."),
  "C18": dict(technique="runtime monitoring: out-of-band probe of dead buffers in client programs built per optimisation level / LTO, with a plain-memset positive control",
              engine="erase",
